@@ -1,6 +1,63 @@
 import SigpyVerif.Model.Py
 import SigpyVerif.Model.Proto
+import SigpyVerif.Model.C10
 namespace SigpyVerif.Drv.C10
+open SigpyVerif SigpyVerif.Proto
+
+def optNat (toks : List String) (k : String) : Option (Option Nat) :=
+  match kv toks k with
+  | none => none
+  | some "none" => some none
+  | some s => (parseInt? s).bind fun i => if i < 0 then none else some (some i.toNat)
+
+def natList (toks : List String) (k : String) : Option (List Nat) :=
+  ((kv toks k).bind parseIntList?).bind fun l => if l.all (0 ≤ ·) then some (l.map Int.toNat) else none
+
 /-- protocol handler for property C10 (tokens after the property id). -/
-def handle (_toks : List String) : String := "err bad-op"
+def handle (toks : List String) : String :=
+  let getR (k : String) := (kv toks k).bind parseRatList?
+  let getL (k : String) := (kv toks k).bind parseIntList?
+  match toks.head? with
+  | some "dwt" =>
+    match getR "h", getR "g", getR "x" with
+    | some h, some g, some x =>
+      if h.length ≠ g.length then "err filter" else
+      let (a, d) := C10.dwt1 h g x
+      s!"ok {fmtRatList a} | {fmtRatList d}"
+    | _, _, _ => "err bad-op"
+  | some "idwt" =>
+    match getR "h", getR "g", getR "a", getR "d" with
+    | some h, some g, some a, some d =>
+      if h.length ≠ g.length ∨ a.length ≠ d.length then "err filter" else
+      s!"ok {fmtRatList (C10.idwt1 h g a d)}"
+    | _, _, _, _ => "err bad-op"
+  | some "fwt1" =>
+    match getR "h", getR "g", optNat toks "level", getR "x" with
+    | some h, some g, some lv, some x => s!"ok {fmtRatList (C10.fwt1 h g lv x)}"
+    | _, _, _, _ => "err bad-op"
+  | some "iwt1" =>
+    match getR "h", getR "g", optNat toks "level", (kv toks "n").bind parseInt?, getR "c" with
+    | some h, some g, some lv, some n, some c =>
+      if n < 0 then "err bad-op" else s!"ok {fmtRatList (C10.iwt1 h g lv n.toNat c)}"
+    | _, _, _, _, _ => "err bad-op"
+  | some "shape" =>
+    match natList toks "sh", natList toks "ax", (kv toks "L").bind parseInt?, optNat toks "level" with
+    | some sh, some ax, some L, some lv =>
+      s!"ok {fmtIntList ((C10.waveShape sh ax L.toNat lv).map Int.ofNat)}"
+    | _, _, _, _ => "err bad-op"
+  | some "zshape" =>
+    match getL "i" with
+    | some l => s!"ok {fmtIntList (l.map Gen.waveZshapeShape)} | {fmtIntList (l.map Gen.waveZshapeFwt)}"
+    | none => "err bad-op"
+  | some "padcrop" =>
+    -- for one axis length i: sources of the padded axis (k = 0..z-1; -1 = inserted zero) and of the
+    -- cropped axis (j = 0..i-1)
+    match (kv toks "i").bind parseInt? with
+    | some i =>
+      let z := Gen.waveZshapeFwt i
+      let p := (pyRange0 z).map fun k => (C10.padSrc i k).getD (-1)
+      let c := (pyRange0 i).map fun j => (C10.cropSrc i j).getD (-1)
+      s!"ok {fmtIntList p} | {fmtIntList c}"
+    | none => "err bad-op"
+  | _ => "err bad-op"
 end SigpyVerif.Drv.C10
